@@ -49,7 +49,7 @@ CHECKS = {
    note="Trusted: vp/model/qexpr.py; applied functions interpreted by a fixed polynomial. Five open known findings (minor classes of collect_expression_and_dimension) are excluded by construction and counted.",
    ref="DESIGN.md section 2/C06; notes/C06.md"),
  "C07": dict(
-   technique="property-based testing: generated quantities x independently generated equivalent/inequivalent target unit expressions vs. exact M-units factors (reference model), composition/round-trip/linearity relations, evaluate_expression value preservation, Celsius/kelvin round trips",
+   technique="property-based testing: generated quantities x independently generated equivalent/inequivalent target unit expressions vs. exact M-units factors (reference model), composition/round-trip/linearity relations, evaluate_expression value preservation, Celsius/kelvin round trips, refusal classes for float exponents and for the non-SI base dimension information (bit/byte)",
    text="4k cases quick / 100k thorough over base, derived, prefixed units and products/quotients/powers of them; n = convert_to(q, u) must equal model(q)/model(u) exactly for rational cases (1e-12 otherwise), conversions compose and invert, convert_to_si equals the scale factor, inequivalent targets are refused.",
    note="Trusted: vp/model/units.py hand-typed SI table (self-checked against SymPy's own unit definitions), vp/model/unitexpr.py. Refusal of a zero magnitude for an inequivalent target is left unjudged (wildcard rule vs property text).",
    ref="DESIGN.md section 2/C07; notes/C07.md"),
@@ -64,15 +64,15 @@ CHECKS = {
    note="Trusted: the model dict maintained by the rules. Two open known findings (printing of applied VectorFunctions; IndexedSymbol rebuilt by .doit()).",
    ref="DESIGN.md section 2/C09; notes/C09.md"),
  "C20": dict(
-   technique="exhaustive enumeration of the constants catalogue against an independent CODATA/IAU reference table typed into the harness (differential oracle), unit views through the M-units table, the seven identities",
-   text="All 27 Quantity constants of symplyphysics.quantities (25 exported + 2 defined but not exported) are compared with reference value, dimension vector and a per-row tolerance derived from the digits written in the source; every constant is additionally viewed in every tabled unit of its dimension; the seven identities of the property are checked at 1e-9.",
-   note="Trusted: the reference table in vp/checks/c20.py (CODATA 2018/2022, IAU 2015). Finite space, enumerated completely.",
+   technique="exhaustive enumeration of the constants catalogue against an independent CODATA/IAU reference table typed into the harness (differential oracle), unit views through the M-units table, the seven identities; plus property-based use-histories: Hypothesis-generated sequences of public-API uses of the constants, each in a forked process, after which the table is judged again (invariant over the history), shrunk to a minimal history",
+   text="All 27 Quantity constants of symplyphysics.quantities (25 exported + 2 defined but not exported) are compared with reference value, dimension vector and a per-row tolerance derived from the digits written in the source; every constant is additionally viewed in every tabled unit of its dimension; the seven identities of the property are checked at 1e-9. 88 (quick) / 1600 (thorough) generated use-histories of 1-6 steps (copies with and without dimension=/names, products, ratios, powers, conversions, comparisons) must leave every constant and identity as it was.",
+   note="Trusted: the reference table in vp/checks/c20.py (CODATA 2018/2022, IAU 2015). The table is a finite space, enumerated completely; the histories are sampled.",
    category="exploration",
    ref="DESIGN.md section 2/C20; notes/C20.md"),
  "C02": dict(
-   technique="property-based testing: exhaustive discovery of the 777 public catalogue functions + Hypothesis-generated argument recipes (magnitudes, signs, units, prefixes); residual oracle against the published equation at 50 digits with a backward-error tolerance, and unit/call-style metamorphic relation",
+   technique="property-based testing: exhaustive discovery of the 777 public catalogue functions + Hypothesis-generated argument recipes (magnitudes, signs, units, prefixes); residual oracle against the published equation at 50 digits with a backward-error tolerance, and unit/call-style metamorphic relation; vector laws: round trips between mutually solved forms and a differential of every vector calculate function against the module's own law function in SI, with 1-3 written components",
    text="For every function whose parameters and output correspond one-to-one to symbols of a published algebraic equation (503 of 777) the returned value and the arguments are substituted into that equation (root-agnostic residual; documented magnitude/rounded-up functions are compared with that operation applied to the harness's own solution); for every function the same physical arguments written in other units and passed by keyword must give the same SI result. 2 recipes per function quick, 24 thorough.",
-   note="Trusted: parameter<->symbol correspondence from the guard symbols / naming convention, SI values computed by the harness unit table, SymPy N at 50 digits. Calls that raise are not violations (counted; never-returning functions listed as uncovered: vector/sequence-valued functions are not generated). Ill-conditioned cases (extreme magnitudes, catastrophic cancellation in double precision) are discarded and counted. Two open known findings.",
+   note="Trusted: parameter<->symbol correspondence from the guard symbols / naming convention, SI values computed by the harness unit table, SymPy N at 50 digits. Calls that raise are not violations (counted; never-returning functions listed as uncovered; sequence-valued and field-valued functions are not generated). Ill-conditioned cases (extreme magnitudes, catastrophic cancellation in double precision) are discarded and counted. Two open known findings.",
    ref="DESIGN.md section 2/C02"),
  "C01": dict(
    technique="exhaustive enumeration of the 677 published equations with a harness dimension-vector model (reference-model oracle) + generated Buckingham unit-rescaling metamorphic test at 50 digits; the two oracles cross-check each other",
@@ -81,7 +81,7 @@ CHECKS = {
    ref="DESIGN.md section 2/C01"),
  "C10": dict(
    technique="property-based testing: exhaustive generic-symbol shapes (all length triples 0..3) + Hypothesis-generated numeric/symbolic/polynomial components vs. a Fraction component model and algebraic laws (reference model + metamorphic identities), exhaustive refusal table",
-   text="All 64 length triples with generic symbols (polynomial identities: one generic case decides a shape), 2.4k generated cases quick / 48k thorough in five component flavours, and a 1291-row refusal table over coordinate-system combinations; every result is compared component-wise with the harness model at 3 rational assignments and every law by an exact rational-function residual.",
+   text="All 64 length triples with generic symbols (polynomial identities: one generic case decides a shape), 2.4k generated cases quick / 48k thorough in five component flavours, and a 1291-row refusal table over coordinate-system combinations; every result is compared component-wise with the harness model at 3 rational assignments, every law by an exact rational-function residual and, for symbols without assumptions, at one complex (Gaussian-rational) assignment.",
    note="Trusted: textbook component formulas in the check module, SymPy expand/cancel as decision procedure for rational identities. Float flavour uses dyadic floats with a stated tolerance.",
    ref="DESIGN.md section 2/C10; notes/C10.md"),
  "C11": dict(
@@ -91,7 +91,7 @@ CHECKS = {
    ref="DESIGN.md section 2/C11; notes/C11.md"),
  "C17": dict(
    technique="property-based testing: round-trip oracle (code_str -> harness Pratt parser -> random interpretation at 50 digits) over Hypothesis-generated canonical trees + exhaustive sweep of the 619 documented catalogue members in source form",
-   text="Every generated canonical tree (4k quick / 150k thorough) and every documented catalogue equation in source form is rendered, parsed by an independent parser under ordinary precedence (lexicon of display names), and both sides are evaluated under 3 random environments; calculus nodes are linear functionals. Detects dropped brackets, lost signs, swapped arguments, wrong names; renderings outside the parser grammar are counted as unparsed, not as correct.",
+   text="Every generated canonical tree (4k quick / 150k thorough) and every documented catalogue equation in source form is rendered, parsed by an independent parser under ordinary precedence (lexicon of display names), and both sides are evaluated under 3 random environments; calculus nodes are linear functionals. Detects dropped brackets, lost signs, swapped arguments, wrong names; a rendering that mentions a plain identifier which is not the display name of any atom of the expression is a violation (foreign-symbol); other renderings outside the parser grammar are counted as unparsed, not as correct.",
    note="Trusted: the grammar in vp/parse/code_parser.py as 'ordinary reading', the value semantics in vp/model/interp.py, mpmath. A Float atom means the decimal SymPy shows for it. Unevaluated (non-canonical) shapes are covered only through the catalogue.",
    ref="DESIGN.md section 2/C17"),
  "C18": dict(
